@@ -1,7 +1,7 @@
 (** C07 - Channel cells are never accessed concurrently; values dropped exactly once. *)
 From Coq Require Import List Arith NArith ZArith Bool String.
 From SH Require Import base.Pool gen.Extracted_channel channel.Defs channel.Word channel.Model channel.Skeleton
-  channel.Inv channel.Account channel.Reach channel.ModelRA channel.InvRA.
+  channel.Inv channel.Account channel.Reach channel.ModelRA channel.InvRA channel.Refine.
 Import ListNotations.
 Local Open Scope N_scope.
 
@@ -21,6 +21,13 @@ Proof. exact ra_race_free. Qed.
     world of the view semantics. *)
 Theorem C07_ra_invariant : forall ls, RInv (fst (rrun rinit_world ls)) (snd (rrun rinit_world ls)).
 Proof. exact ra_reachable_inv. Qed.
+
+(** The SC model (the one validated in lock-step against the real code) is the "read the latest
+    message" fragment of the view semantics: every world it reaches corresponds to a reachable
+    world of ModelRA (same queue words as last messages, same cells, same frames). *)
+Theorem C07_sc_worlds_are_view_worlds : forall ls w es,
+  run init_world ls = (w, es) -> exists rls, world_rel w (rrun rinit_world rls).
+Proof. exact sc_worlds_are_ra_worlds. Qed.
 
 (** The orderings the proof consumes, as extracted from the source. *)
 Theorem C07_orderings :
